@@ -79,6 +79,11 @@ def batch_for(rng, spec):
                 mj['initial'] = sigs.cv(EMBED_VALUES[mj['initial_sql']] if t != 'IntegerField'
                                         else int(EMBED_VALUES[mj['initial_sql']]))
             muts.append(mj)
+            if any(a == ['null', 'true'] for a in attrs) and rng.random() < 0.6:
+                # ... and made NOT NULL later in the same batch (added and modified in one rebuild when the
+                # mutations reach the mutator one by one)
+                muts.append({'t': 'ChangeField', 'model': 'Alpha', 'field': n, 'ftype': None,
+                             'initial': sigs.cv(sigs.gen_initial(rng, t)), 'attrs': [['null', 'false']]})
         elif k == 'notnull':
             c = [f for f in nullable if f['name'] not in used]
             if c:
@@ -161,13 +166,60 @@ def run_one_table(spec, muts, seed):
     dbrig.insert_rows(models, rng, n_rows=rng.randint(1, 5))
     cols, before = rows_of('vapp_alpha')
     am = AppMutator(app_label='vapp', project_sig=sig.clone(), database_state=dbrig.scan_state(), database='default')
-    am.run_mutations([sigs.real_mutation(m) for m in muts])
+    if seed % 2:
+        # the mutations reach the mutator one by one (no optimiser pass over the list): what several
+        # run_mutation()/run_mutations() calls on one AppMutator amount to
+        for m in muts:
+            am.run_mutation(sigs.real_mutation(m))
+    else:
+        am.run_mutations([sigs.real_mutation(m) for m in muts])
     am._finalize_model_mutator()
     ops = abstract_ops(am)
     sql = am.to_sql()
     dbrig.run_sql(sql)
     cols2, after = rows_of('vapp_alpha')
     return cols, before, ops, cols2, after
+
+
+def one_table_problems(muts, before, after):
+    """the property itself on a one-table batch (no renames, column = field name): surviving values unchanged, NULLs
+    replaced by the first NOT-NULL change's initial, new columns hold their declared initial"""
+    val = lambda t: None if t is None else sval(json.loads(t))
+    rows0 = {dict(r)['id']: dict(r) for r in before}
+    rows1 = {dict(r)['id']: dict(r) for r in after}
+    problems = []
+    if set(rows0) != set(rows1):
+        return ['the table gained or lost rows']
+    deleted = set(m['field'] for m in muts if m['t'] == 'DeleteField')
+    added = {}
+    fill = {}
+    embedded = set()
+    for m in muts:
+        if m['t'] == 'AddField':
+            added[m['field']] = val(m.get('initial'))
+        elif m['t'] == 'ChangeField' and ['null', 'false'] in m['attrs'] and m.get('initial') is not None:
+            fill.setdefault(m['field'], val(m['initial']))
+            if m.get('initial_sql') is not None:
+                embedded.add(m['field'])
+    for pk, r0 in rows0.items():
+        r1 = rows1[pk]
+        for c, v0 in r0.items():
+            if c in deleted or c == 'id' or c not in r1:
+                continue
+            if c in embedded:
+                continue        # finding F57 (judged on the family cases of part 2)
+            want = v0 if v0 is not None else fill.get(c)
+            if r1[c] != want:
+                problems.append('row %s: %s was %r, is %r (expected %r)' % (pk, c, v0, r1[c], want))
+        for c, init in added.items():
+            if c in deleted or c not in r1 or c in r0:
+                continue
+            if init is not None and c in fill:
+                continue        # two initial values for one new column rolled into one rebuild: C03's finding F21
+            want = init if init is not None else fill.get(c)
+            if r1[c] != want:
+                problems.append('row %s: new column %s holds %r, expected %r' % (pk, c, r1[c], want))
+    return problems
 
 
 def detect_aligned():
@@ -483,6 +535,10 @@ def run(ctx):
             ok = (sorted(out['cols']) == sorted(cols2) and model_rows == real_rows)
             ctx.corr_case('rebuild_rows', ok, case={'spec': spec, 'mutations': muts, 'seed': seed},
                           model=out, impl={'cols': cols2, 'rows': after})
+        probs = one_table_problems(muts, before, after)
+        if probs and not (not aligned and multi_param(muts)):
+            ctx.fail(None, 'row data is not preserved by a one-table batch: %s' % probs[0],
+                     {'spec': spec, 'mutations': muts, 'seed': seed, 'one_by_one': bool(seed % 2), 'problems': probs[:5]})
     # (2)
     n2 = 150 if quick else 4000
     done = 0
